@@ -6,7 +6,8 @@ use rsdd::builder::bdd::RobddBuilder;
 use rsdd::builder::cache::{AllIteTable, IteTable, LruIteTable};
 use rsdd::builder::BottomUpBuilder;
 use rsdd::constants::primes;
-use rsdd::repr::{create_semantic_hash_map, BddPtr, DDNNFPtr, VarLabel, VarOrder};
+use rsdd::builder::bdd::BddBuilder;
+use rsdd::repr::{create_semantic_hash_map, BddPtr, DDNNFPtr, PartialModel, VarLabel, VarOrder};
 use serde_json::{json, Value};
 
 fn eval(p: BddPtr, a: &[bool]) -> bool {
@@ -126,6 +127,23 @@ fn run_with<'a, T: IteTable<'a, BddPtr<'a>> + Default>(b: &'a RobddBuilder<'a, T
                 let r = b.compose(x, VarLabel::new(l as u64), y);
                 (r, (0..nm).map(|m| { let (t, f) = (m | (1 << l), m & !(1 << l)); (ty[t] && tx[t]) || (!ty[f] && tx[f]) }).collect())
             }
+            "condmodel" => {
+                // condition on a partial model: op[2] is a list of (label, value) pairs
+                let (x, tx) = get(ix(&op[1]))?;
+                let mut pa: Vec<Option<bool>> = vec![None; nv];
+                for pr in op[2].as_array().cloned().unwrap_or_default() { pa[ix(&pr[0]) % nv] = Some(pr[1].as_bool().unwrap_or(true)); }
+                let m = PartialModel::from_assignments(&pa);
+                let r = b.condition_model(x, &m);
+                let want: Vec<bool> = (0..nm).map(|mm| { let mut m2 = mm; for (l, v) in pa.iter().enumerate() { if let Some(v) = v { if *v { m2 |= 1 << l } else { m2 &= !(1 << l) } } } tx[m2] }).collect();
+                (r, want)
+            }
+            "andlst" | "orlst" => {
+                let idxs: Vec<usize> = op[1].as_array().map(|a| a.iter().map(ix).collect()).unwrap_or_default();
+                let mut ps = vec![]; let mut ts = vec![];
+                for i in idxs.iter() { let (x, tx) = get(*i)?; ps.push(x); ts.push(tx); }
+                if name == "andlst" { (b.and_lst(&ps), (0..nm).map(|m| ts.iter().all(|t| t[m])).collect()) }
+                else { (b.or_lst(&ps), (0..nm).map(|m| ts.iter().any(|t| t[m])).collect()) }
+            }
             "semhash" => {
                 // a query: fills the per-node semantic-hash cache; must not disturb anything (the diagram is pushed again)
                 let (x, tx) = get(ix(&op[1]))?;
@@ -162,15 +180,16 @@ fn run_with<'a, T: IteTable<'a, BddPtr<'a>> + Default>(b: &'a RobddBuilder<'a, T
                 return Err(format!("after op {k}, diagram {i} no longer denotes its function"));
             }
         }
-        let operands_canon = op.as_array().map(|a| a.iter().skip(1).all(|v| match v.as_u64() { Some(i) if name != "var" && name != "cond" && name != "exists" => (i as usize) >= canon.len() || canon[i as usize], _ => true })).unwrap_or(true)
+        let list_ok = match name { "andlst" | "orlst" => op[1].as_array().map(|a| a.iter().all(|v| canon[ix(v)])).unwrap_or(true), _ => true };
+        let operands_canon = list_ok && op.as_array().map(|a| a.iter().skip(1).all(|v| match v.as_u64() { Some(i) if name != "var" && name != "cond" && name != "exists" => (i as usize) >= canon.len() || canon[i as usize], _ => true })).unwrap_or(true)
             && match name { "cond" | "exists" => canon[ix(&op[1])], "compose" => canon[ix(&op[1])] && canon[ix(&op[3])], _ => true };
         if check_shape && operands_canon {
             if let Err(e) = shape(r, b.order(), None) {
-                return Err(format!("op {k} {op}: {e}"));
+                return Err(format!("[canonicity] op {k} {op}: {e}"));
             }
             for (i, d) in ds.iter().enumerate() {
                 if canon[i] && (tts[i] == want) != b.eq(*d, r) {
-                    return Err(format!("op {k} {op}: diagrams {i} and {k} denote {} functions but eq() says {}", if tts[i] == want { "equal" } else { "different" }, b.eq(*d, r)));
+                    return Err(format!("[canonicity] op {k} {op}: diagrams {i} and {k} denote {} functions but eq() says {}", if tts[i] == want { "equal" } else { "different" }, b.eq(*d, r)));
                 }
             }
         }
@@ -181,7 +200,44 @@ fn run_with<'a, T: IteTable<'a, BddPtr<'a>> + Default>(b: &'a RobddBuilder<'a, T
     Ok(())
 }
 
+/// variables added at run time: new_var on a builder with a (possibly non-linear) order, then operations over old and new variables
+fn run_newvar(c: &Value) -> CaseResult {
+    let order: Vec<VarLabel> = c["order"].as_array().map(|a| a.iter().map(|v| VarLabel::new(v.as_u64().unwrap_or(0))).collect()).unwrap_or_default();
+    let n0 = order.len();
+    let b = RobddBuilder::<AllIteTable<BddPtr>>::new(VarOrder::new(&order));
+    let old: Vec<BddPtr> = (0..n0).map(|l| b.var(VarLabel::new(l as u64), true)).collect();
+    let f = if n0 >= 2 { b.and(old[0], b.or(old[1], old[n0 - 1].neg())) } else { old[0] };
+    let tf = table(f, n0);
+    let (lbl, nvp) = b.new_var(c["pol"].as_bool().unwrap_or(true));
+    if lbl.value() as usize != n0 { return Err(format!("new_var returned label {} on a builder with {} variables", lbl.value(), n0)); }
+    let nv = n0 + 1;
+    // the old diagram keeps its function (it does not depend on the new variable)
+    let tf2 = table(f, nv);
+    for m in 0..(1usize << nv) { if tf2[m] != tf[m & ((1 << n0) - 1)] { return Err("a diagram built before new_var changed its function".into()); } }
+    let g = b.and(f, nvp);
+    let h = b.exists(b.iff(g, old[0]), lbl);
+    let pol = c["pol"].as_bool().unwrap_or(true);
+    for m in 0..(1usize << nv) {
+        let a: Vec<bool> = (0..nv).map(|i| (m >> i) & 1 == 1).collect();
+        let fv = tf[m & ((1 << n0) - 1)];
+        if eval(g, &a) != (fv && (a[n0] == pol)) { return Err(format!("and(f, new variable) wrong on {:?}", a)); }
+        let w = |x: bool| (fv && (x == pol)) == a[0];
+        if eval(h, &a) != (w(true) || w(false)) { return Err(format!("exists over the new variable wrong on {:?}", a)); }
+    }
+    if !c["shape"].as_bool().unwrap_or(true) { return Ok(()); }
+    shape(g, b.order(), None).map_err(|e| format!("[canonicity] after new_var: {e}"))
+}
+
 pub fn run(c: &Value) -> CaseResult {
+    // "only": "canonicity" keeps shape/equality failures only (semantic failures belong to other properties)
+    match run_all(c) {
+        Err(e) if c["only"].as_str() == Some("canonicity") && !e.starts_with("[canonicity]") && !e.starts_with("panicked") => Ok(()),
+        r => r,
+    }
+}
+
+fn run_all(c: &Value) -> CaseResult {
+    if c["case"].as_str() == Some("bdd_newvar") { return run_newvar(c); }
     let order: Vec<VarLabel> = c["order"].as_array().map(|a| a.iter().map(|v| VarLabel::new(v.as_u64().unwrap_or(0))).collect()).unwrap_or_default();
     let nv = order.len();
     let ops: Vec<Value> = c["ops"].as_array().cloned().unwrap_or_default();
@@ -210,11 +266,14 @@ pub fn candidates(function: &str, seed: u64) -> Vec<Value> {
     let mut out = vec![];
     let smooth_only = function.contains("smooth") || function.contains("prop:C08");
     // shape / canonicity conditions belong to C02 only
-    let shape = !function.contains("prop:") || function.contains("prop:C02");
+    let shape = !function.contains("prop:") || function.contains("prop:C02") || function.contains("prop:C16");
+    let only = if function.contains("prop:C02") { json!("canonicity") } else { Value::Null };
+    let lru_only = function.contains("prop:C16");
     // systematic: every operation on every pair of literals / small functions, all orders, both caches
     let lits: Vec<Value> = (0..3).flat_map(|l| vec![json!(["var", l, true]), json!(["var", l, false])]).collect();
     for order in ORDERS.iter() {
         for cache in ["all", "lru"] {
+            if lru_only && cache != "lru" { continue; }
             if smooth_only {
                 for l in 0..3 {
                     for pol in [true, false] {
@@ -251,7 +310,7 @@ pub fn candidates(function: &str, seed: u64) -> Vec<Value> {
                             q.push(json!(["semhash", k]));
                             q.push(json!([opn, i, j]));
                             q.push(json!(["var", l, true]));
-                            out.push(json!({"case": "bdd_prog", "order": order, "cache": cache, "ops": q, "shape": shape}));
+                            out.push(json!({"case": "bdd_prog", "order": order, "cache": cache, "ops": q, "shape": shape, "only": only}));
                         }
                     }
                 }
@@ -259,11 +318,16 @@ pub fn candidates(function: &str, seed: u64) -> Vec<Value> {
             prog.clear();
         }
     }
+    if !smooth_only {
+        for order in [vec![0u64], vec![0, 1], vec![1, 0], vec![0, 1, 2], vec![2, 0, 1], vec![1, 2, 0], vec![2, 1, 0]] {
+            for pol in [true, false] { out.push(json!({"case": "bdd_newvar", "order": order, "pol": pol, "shape": shape, "only": only})); }
+        }
+    }
     // random programs
     let mut rng = Rng(seed.wrapping_add(12345));
     for t in 0..3000 {
         let order = ORDERS[rng.next(6)];
-        let cache = if rng.next(2) == 0 { "all" } else { "lru" };
+        let cache = if rng.next(2) == 0 && !lru_only { "all" } else { "lru" };
         let mut ops: Vec<Value> = (0..3).map(|l| json!(["var", l, true])).collect();
         let len = 4 + rng.next(10);
         for _ in 0..len {
@@ -278,13 +342,18 @@ pub fn candidates(function: &str, seed: u64) -> Vec<Value> {
                 7 => json!(["cond", rng.next(n), rng.next(3), rng.next(2) == 0]),
                 8 => json!(["exists", rng.next(n), rng.next(3)]),
                 9 => json!(["compose", rng.next(n), rng.next(3), rng.next(n)]),
-                10 => if rng.next(3) == 0 { json!(["semhash", rng.next(n)]) } else { json!(["var", rng.next(3), rng.next(2) == 0]) },
+                10 => match rng.next(5) {
+                    0 => json!(["semhash", rng.next(n)]),
+                    1 => { let k = rng.next(3); let pairs: Vec<Value> = (0..k).map(|_| json!([rng.next(3), rng.next(2) == 0])).collect(); json!(["condmodel", rng.next(n), pairs]) }
+                    2 => { let k = rng.next(4); let l: Vec<Value> = (0..k).map(|_| json!(rng.next(n))).collect(); json!([if rng.next(2) == 0 { "andlst" } else { "orlst" }, l]) }
+                    _ => json!(["var", rng.next(3), rng.next(2) == 0]),
+                },
                 _ => json!(["smooth", rng.next(n), rng.next(4)]),
             };
             ops.push(op);
         }
         let _ = t;
-        out.push(json!({"case": "bdd_prog", "order": order, "cache": cache, "ops": ops, "shape": shape}));
+        out.push(json!({"case": "bdd_prog", "order": order, "cache": cache, "ops": ops, "shape": shape, "only": only}));
     }
     out
 }
